@@ -220,7 +220,11 @@ def random_names(tier, flavours=None, quick_n=1, thorough_n=12):
     # the quick tier always runs the same histories; VERIF_SEED moves the thorough tier to other ones
     base = int(os.environ.get('VERIF_SEED', '0') or 0) * 1000 if tier != 'quick' else 0
     n = quick_n if tier == 'quick' else thorough_n
-    return ['random:%s:%d' % (fl, base + k) for fl in (flavours or sorted(FLAVOURS)) for k in range(1, n + 1)]
+    names = ['random:%s:%d' % (fl, base + k) for fl in (flavours or sorted(FLAVOURS)) for k in range(1, n + 1)]
+    if tier != 'quick':
+        # two long histories (200 operations) per flavour: deep trees, relocation, many continuation areas, multi-sector directories
+        names += ['random:%s:%d:200' % (fl, base + k) for fl in (flavours or sorted(FLAVOURS)) for k in (1, 2)]
+    return names
 
 
 def get_script(name):
